@@ -172,8 +172,9 @@ def build_request(rng, ident, well_formed=True, method=None, allow_body=True):
     wire = m + b" " + uri + b" " + proto + b"\r\n"
     for n, v in hdrs:
         if rng.random() < 0.15 and v and n not in (b"Content-Length", b"Transfer-Encoding", b"Host"):
-            # folded value
-            k = rng.randint(0, len(v))
+            # folded value; the continuation line always carries text (a whitespace-only line ends the header block
+            # under the IIS 5.1 personality)
+            k = rng.randint(0, len(v) - 1)
             wire += n + b": " + v[:k] + b"\r\n " + v[k:] + b"\r\n"
         else:
             wire += n + b":" + rng.choice([b" ", b"", b"  ", b"\t"]) + v + rng.choice([b"", b"", b" "]) + b"\r\n"
